@@ -363,12 +363,13 @@ impl<W: Write + io::Seek> ZipWriter<W> {
     where
         S: Into<String>,
     {
-        self.finish_file()?;
-
+        // refuse an unrepresentable name before touching the writer's state
         let name = name.into();
         if name.len() > spec::ZIP64_ENTRY_THR {
             return Err(ZipError::InvalidArchive("File name is too long"));
         }
+
+        self.finish_file()?;
 
         let raw_values = raw_values.unwrap_or(ZipRawValues {
             crc32: 0,
